@@ -25,7 +25,7 @@ use verif_harness::Opts;
 // ------------------------------------------------------------------------------------------
 // programs
 
-const RS_NAMES: [&str; 5] = ["r0", "r1", "r2", "c", "u"];
+const RS_NAMES: [&str; 5] = ["r0", "r1", "r2", "comb", "uni"];
 
 /// (base name, text with {RS} / {N} placeholders)
 const POOL: &[(&str, &str)] = &[
@@ -80,13 +80,13 @@ fn gen_prog(r: &mut Rng) -> Prog {
     t.push_str("(datatype E (Num i64) (Add E E) (Mul E E) (Neg E))\n");
     t.push_str("(relation edge (i64 i64))\n(relation path (i64 i64))\n(relation isadd (E))\n");
     t.push_str("(function lo (E) i64 :merge (min old new))\n(relation mark ())\n(mark)\n");
-    t.push_str("(ruleset r0)\n(ruleset r1)\n(ruleset r2)\n(ruleset u)\n");
+    t.push_str("(ruleset r0)\n(ruleset r1)\n(ruleset r2)\n(ruleset uni)\n");
     let mut marker_ids: Vec<Vec<usize>> = vec![vec![], vec![], vec![]];
     for i in 0..3 {
         t.push_str(&format!("(rule ((mark)) () :ruleset r{i} :name \"mark_r{i}_0\" :naive)\n"));
         marker_ids[i].push(i * 10);
     }
-    t.push_str("(rule ((mark)) () :ruleset u :name \"mark_u\" :naive)\n");
+    t.push_str("(rule ((mark)) () :ruleset uni :name \"mark_u\" :naive)\n");
     // choose rules
     let k = r.range(4, 8);
     let mut idxs: Vec<usize> = (0..POOL.len()).collect();
@@ -95,6 +95,17 @@ fn gen_prog(r: &mut Rng) -> Prog {
         idxs.swap(i, j);
     }
     idxs.truncate(k);
+    // termination of saturate: `a = a + 0` (a cyclic class) together with re-bracketing or
+    // distribution generates unboundedly many new terms, so these never share a program
+    let name = |ix: &usize| POOL[*ix].0;
+    if idxs.iter().any(|ix| name(ix) == "assoc-add" || name(ix) == "distribute") {
+        idxs.retain(|ix| name(ix) != "add-zero" && name(ix) != "mul-one");
+    }
+    if idxs.iter().any(|ix| name(ix) == "assoc-add") {
+        // x + 0 = x by constant folding is a cyclic class as well
+        idxs.retain(|ix| name(ix) != "fold-add");
+    }
+    let k = idxs.len();
     let mut before: Vec<(usize, usize)> = vec![];
     let mut after: Vec<(usize, usize)> = vec![];
     for &ix in &idxs {
@@ -113,7 +124,7 @@ fn gen_prog(r: &mut Rng) -> Prog {
     for &(ix, rs) in &before {
         emit(&mut t, ix, RS_NAMES[rs]);
     }
-    t.push_str("(unstable-combined-ruleset c r0 r1)\n");
+    t.push_str("(unstable-combined-ruleset comb r0 r1)\n");
     for &(ix, rs) in &after {
         emit(&mut t, ix, RS_NAMES[rs]);
     }
@@ -127,7 +138,7 @@ fn gen_prog(r: &mut Rng) -> Prog {
     // u = copies of everything currently in r0 and r1
     for &(ix, rs) in before.iter().chain(after.iter()) {
         if rs < 2 {
-            emit(&mut t, ix, "u");
+            emit(&mut t, ix, "uni");
         }
     }
     let after_in_c = after.iter().filter(|(_, rs)| *rs < 2).count();
@@ -163,9 +174,30 @@ fn gen_prog(r: &mut Rng) -> Prog {
     }
     // until fact sets
     let mut untils = vec![];
+    let ev: Vec<(usize, usize)> = edges.iter().cloned().collect();
     for _ in 0..2 {
-        let f = match r.below(6) {
+        let f = match r.below(9) {
             0 | 1 => format!("(path {} {})", r.below(5), r.below(5)),
+            6 => {
+                let (a, b) = *r.pick(&ev);
+                format!("(edge {a} {b})")
+            }
+            7 | 8 => {
+                // a path along two or three edges when there is one
+                let (a, b) = *r.pick(&ev);
+                let nexts: Vec<usize> = ev.iter().filter(|(x, _)| *x == b).map(|(_, y)| *y).collect();
+                if nexts.is_empty() {
+                    format!("(path {a} {b})")
+                } else {
+                    let c2 = *r.pick(&nexts);
+                    let nn: Vec<usize> = ev.iter().filter(|(x, _)| *x == c2).map(|(_, y)| *y).collect();
+                    if !nn.is_empty() && r.chance(1, 2) {
+                        format!("(path {a} {})", r.pick(&nn))
+                    } else {
+                        format!("(path {a} {c2})")
+                    }
+                }
+            }
             2 => format!("(= t0 t{})", nterms - 1),
             3 => format!("(= t{} (Num {}))", r.below(nterms), r.below(5)),
             4 => format!("(isadd t{})", r.below(nterms)),
@@ -255,7 +287,12 @@ enum Fail {
 fn guarded<T>(f: impl FnOnce() -> Result<T, egglog::Error>) -> Result<T, Fail> {
     match catch_unwind(AssertUnwindSafe(f)) {
         Ok(Ok(v)) => Ok(v),
-        Ok(Err(_)) => Err(Fail::Error),
+        Ok(Err(e)) => {
+            if std::env::var("H_SCHED_DEBUG").is_ok() {
+                eprintln!("engine error: {e}");
+            }
+            Err(Fail::Error)
+        }
         Err(_) => Err(Fail::Panic),
     }
 }
@@ -368,7 +405,51 @@ struct Acc {
     until_stopped: usize,
 }
 
+fn new_acc() -> Acc {
+    Acc {
+        violations: vec![],
+        law_hist: BTreeMap::new(),
+        iter_hist: BTreeMap::new(),
+        fail_hist: BTreeMap::new(),
+        shape_hist: BTreeMap::new(),
+        distinct: HashSet::new(),
+        nontrivial: 0,
+        samples: vec![],
+        evals: 0,
+        early_stop_pairs: 0,
+        early_stop_pairs_differ: 0,
+        after_rule_essential: 0,
+        until_stopped: 0,
+    }
+}
+
 impl Acc {
+    fn merge(&mut self, o: Acc) {
+        self.violations.extend(o.violations);
+        for (k, v) in o.law_hist {
+            *self.law_hist.entry(k).or_insert(0) += v;
+        }
+        for (k, v) in o.iter_hist {
+            *self.iter_hist.entry(k).or_insert(0) += v;
+        }
+        for (k, v) in o.fail_hist {
+            *self.fail_hist.entry(k).or_insert(0) += v;
+        }
+        for (k, v) in o.shape_hist {
+            *self.shape_hist.entry(k).or_insert(0) += v;
+        }
+        // distinctness is per (program, schedule): programs are disjoint across workers
+        self.distinct.extend(o.distinct);
+        self.nontrivial += o.nontrivial;
+        if self.samples.len() < 4 {
+            self.samples.extend(o.samples.into_iter().take(2));
+        }
+        self.evals += o.evals;
+        self.early_stop_pairs += o.early_stop_pairs;
+        self.early_stop_pairs_differ += o.early_stop_pairs_differ;
+        self.after_rule_essential += o.after_rule_essential;
+        self.until_stopped += o.until_stopped;
+    }
     fn violation(&mut self, what: String, seed: u64, index: u64, p: &Prog, law: &str, detail: String) {
         let input = format!(
             "{{\"seed\":{},\"index\":{},\"law\":{},\"program\":{},\"detail\":{}}}",
@@ -399,10 +480,37 @@ impl Acc {
 
 /// run `cmds` on a fresh e-graph of `p`; returns (dump, reports)
 fn side(p: &Prog, cmds: &str) -> Result<(Dump, Vec<RunReport>, EGraph), Fail> {
+    if std::env::var("H_SCHED_DEBUG").is_ok() {
+        eprintln!("side: {cmds}");
+    }
     let mut eg = fresh(p)?;
     let reps = run(&mut eg, cmds)?;
     let d = dump(&eg, p)?;
     Ok((d, reps, eg))
+}
+
+fn saturates_quickly(p: &Prog) -> bool {
+    let Ok(mut eg) = fresh(p) else { return false };
+    for _ in 0..12 {
+        let Ok(reps) = run(&mut eg, "(run-schedule (repeat 4 (seq r0 r1 r2)))\n(print-size)") else { return false };
+        let total: usize = match guarded(|| eg.parse_and_run_program(None, "(print-size)")) {
+            Ok(outs) => outs
+                .iter()
+                .map(|o| match o {
+                    CommandOutput::PrintAllFunctionsSize(v) => v.iter().map(|x| x.1).sum(),
+                    _ => 0,
+                })
+                .sum(),
+            Err(_) => return false,
+        };
+        if total > 3000 {
+            return false;
+        }
+        if reps[0].can_stop {
+            return true;
+        }
+    }
+    false
 }
 
 fn total_iters(reps: &[RunReport]) -> usize {
@@ -412,7 +520,7 @@ fn any_updated(reps: &[RunReport]) -> bool {
     reps.iter().any(|r| r.updated)
 }
 
-fn one_program(seed: u64, index: u64, acc: &mut Acc, w: &mut CaseWriter) {
+fn one_program(seed: u64, index: u64, acc: &mut Acc, w: &mut Vec<String>) {
     let mut r = Rng::for_case(seed, index);
     let p = gen_prog(&mut r);
     let base = match fresh(&p).and_then(|eg| dump(&eg, &p)) {
@@ -425,7 +533,16 @@ fn one_program(seed: u64, index: u64, acc: &mut Acc, w: &mut CaseWriter) {
             return;
         }
     };
+    // only programs whose complete rule set saturates quickly to a small database are used: then
+    // every schedule over subsets of the rules terminates (the programs are monotone)
+    if !saturates_quickly(&p) {
+        *acc.fail_hist.entry("program-discarded:does-not-saturate-in-48-rounds".into()).or_insert(0) += 1;
+        return;
+    }
     let pk = format!("{:x}", hash_str(&p.text));
+    if std::env::var("H_SCHED_DEBUG").is_ok() {
+        eprintln!("{}", p.text);
+    }
     macro_rules! try_side {
         ($law:expr, $cmds:expr) => {
             match side(&p, $cmds) {
@@ -644,8 +761,8 @@ fn one_program(seed: u64, index: u64, acc: &mut Acc, w: &mut CaseWriter) {
     // ---- L7: combined ruleset = union of the current rules of its members, run in one iteration
     {
         let n = r.range(1, 3);
-        let a = format!("(run c {n})");
-        let b = format!("(run u {n})");
+        let a = format!("(run comb {n})");
+        let b = format!("(run uni {n})");
         let (da, ra, _) = try_side!("combined", &a);
         let (db, rb, _) = try_side!("combined", &b);
         if da != db || flags(&ra[0]) != flags(&rb[0]) {
@@ -764,21 +881,7 @@ fn run_all(o: &Opts) -> i32 {
     std::panic::set_hook(Box::new(|_| {}));
     let header = "From Coq Require Import List NArith Bool.\nImport ListNotations.\nRequire Import Verif.Base.Cases Verif.Sched.Syntax Verif.Sched.Algebra.\n";
     let mut w = CaseWriter::new(&o.out, "cases_sched", header, "check_any", 400);
-    let mut acc = Acc {
-        violations: vec![],
-        law_hist: BTreeMap::new(),
-        iter_hist: BTreeMap::new(),
-        fail_hist: BTreeMap::new(),
-        shape_hist: BTreeMap::new(),
-        distinct: HashSet::new(),
-        nontrivial: 0,
-        samples: vec![],
-        evals: 0,
-        early_stop_pairs: 0,
-        early_stop_pairs_differ: 0,
-        after_rule_essential: 0,
-        until_stopped: 0,
-    };
+    let mut acc = new_acc();
     let mut todo: Vec<(u64, u64)> = vec![];
     // corpus seeds first: files corpus/C10/*.json with {"seed":..,"index":..}
     let corpus = std::path::Path::new(env!("CARGO_MANIFEST_DIR")).join("../corpus/C10");
@@ -801,7 +904,7 @@ fn run_all(o: &Opts) -> i32 {
             }
         }
     } else {
-        let mut n = if o.thorough { 5000 } else { 300 };
+        let mut n = if o.thorough { 5000 } else { 200 };
         if let Some(pos) = o.extra.iter().position(|x| x == "--n") {
             n = o.extra[pos + 1].parse().expect("--n");
         }
@@ -810,12 +913,53 @@ fn run_all(o: &Opts) -> i32 {
         }
     }
     let verbose = o.extra.iter().any(|x| x == "--verbose");
-    for (s, i) in todo {
-        let t0 = std::time::Instant::now();
-        one_program(s, i, &mut acc, &mut w);
-        if verbose {
-            eprintln!("program {i}: {:?} evals {}", t0.elapsed(), acc.evals);
+    // watchdog: no program finishing for 90 s means a schedule does not terminate
+    let progress = std::sync::Arc::new(std::sync::atomic::AtomicU64::new(0));
+    {
+        let progress = progress.clone();
+        std::thread::spawn(move || {
+            let mut last = u64::MAX;
+            loop {
+                std::thread::sleep(std::time::Duration::from_secs(90));
+                let cur = progress.load(std::sync::atomic::Ordering::SeqCst);
+                if cur == last {
+                    eprintln!("h_sched: no progress for 90 s after {cur} programs: a schedule does not terminate");
+                    std::process::exit(3);
+                }
+                last = cur;
+            }
+        });
+    }
+    // programs are independent: contiguous chunks on worker threads, merged in order
+    let nthreads = if todo.len() < 16 { 1 } else { 8 };
+    let chunk = (todo.len() + nthreads - 1) / nthreads.max(1);
+    let parts: Vec<(Acc, Vec<String>)> = std::thread::scope(|sc| {
+        let handles: Vec<_> = todo
+            .chunks(chunk.max(1))
+            .map(|ch| {
+                let progress = progress.clone();
+                sc.spawn(move || {
+                    let mut a = new_acc();
+                    let mut cases = vec![];
+                    for &(s, i) in ch {
+                        let t0 = std::time::Instant::now();
+                        one_program(s, i, &mut a, &mut cases);
+                        progress.fetch_add(1, std::sync::atomic::Ordering::SeqCst);
+                        if verbose {
+                            eprintln!("program {i}: {:?} evals {}", t0.elapsed(), a.evals);
+                        }
+                    }
+                    (a, cases)
+                })
+            })
+            .collect();
+        handles.into_iter().map(|h| h.join().expect("worker")).collect()
+    });
+    for (a, cases) in parts {
+        for c in cases {
+            w.push(c);
         }
+        acc.merge(a);
     }
     w.flush();
     let viol: Vec<String> = acc
